@@ -120,6 +120,44 @@ def body():
             chk.cov["obligations_replayed"] += 1
             if n % 397 == 1:
                 chk.sample({k: ob[k] for k in ("kind", "base", "sub", "mode", "segs", "supp", "ibd", "trunc", "el", "dom")})
+    # ---- directed: multi-domain grids with an internal interface (three sheets meet at the junction edges); spaces on two of the sheets are
+    # spaces on a manifold support and must be conforming across the junction edges, whichever sheet holds the smallest element numbers
+    import numpy as np
+    Vt = np.array([[0, 0, 0], [3, 0, 0], [0, 3, 0], [1, 1, 2], [1, 1, -2]], dtype=float).T
+    up = [[0, 1, 3], [1, 2, 3], [2, 0, 3]]
+    down = [[1, 0, 4], [2, 1, 4], [0, 2, 4]]
+    mid = [[0, 1, 2]]
+    for order_name, sheets in (("interface last", (up, down, mid)), ("interface first", (mid, up, down)), ("interface in the middle", (up, mid, down))):
+        els, dom = [], []
+        for sh in sheets:
+            for t in sh:
+                els.append(t)
+                dom.append(1 if sh is up else (2 if sh is down else 3))
+        gt = api.Grid(Vt, np.array(els).T.astype("uint32"), np.array(dom, dtype="uint32"))
+        obt = {"el": (np.array(els) + 1).tolist(), "xyz": Vt.T.tolist()}
+        for segs in ([1, 2], [1, 3], [2, 3]):
+            tri = [t for t, d_ in zip(els, dom) if d_ in segs]
+            nverts = len(set(v for t in tri for v in t))
+            nedges = len(set(frozenset((t[i], t[j])) for t in tri for i, j in ((0, 1), (1, 2), (2, 0))))
+            # SNC (n x RWG) is tangentially continuous only across consistently oriented elements: the two outer sheets
+            for kind in ("P1", "RWG", "SNC") if segs == [1, 2] else ("P1", "RWG"):
+                label = "%s on segments %s of two tetrahedra glued on a triangle (%s)" % (kind, segs, order_name)
+
+                def dfail(aspect, detail, label=label, kind=kind):
+                    chk.violation("%s:%s:junction" % (kind, aspect), "%s: %s" % (label, detail), {"grid": {"el": els, "dom": dom}, "segments": segs})
+
+                try:
+                    k_, deg = rs.KIND[kind]
+                    spj = api.function_space(gt, k_, deg, segments=segs, include_boundary_dofs=True)
+                    chk.count(label, True)
+                    n_edges = rs.check_conformity(obt, gt, spj, dfail, kind)
+                    # the selected sheets form a closed surface: one dof per vertex / edge of it
+                    want = nverts if kind == "P1" else nedges
+                    if spj.global_dof_count != want:
+                        dfail("dof_count", "%d dofs, the closed surface of the two sheets has %d %s" % (spj.global_dof_count, want, "vertices" if kind == "P1" else "edges"))
+                    rs.check_colouring(spj, dfail)
+                except Exception as exc:
+                    dfail("exception", "%s: %s" % (type(exc).__name__, str(exc)[:160]))
     chk.cov["rule"] = ("one obligation per terminal state of SpaceModel (mesh x selection x options x kind); RWG obligations are "
                        "replayed for RWG and SNC, P1/DP0/RWG selections also for DUAL0/DUAL1/BC/RBC; non-trivial = support of >= 2 elements")
     chk.cov["exhaustive"] = True
